@@ -228,7 +228,17 @@ func recordScenAPI(fr *eng.FlowRecorder, s *eng.Scen, rng *rand.Rand) (tr eng.Fl
 	la := []string{"ProcessPartial", "Reject"}
 	extra := fmt.Sprintf("SecRequestBodyAccess On\nSecResponseBodyAccess On\nSecResponseBodyMimeType text/plain\nSecRequestBodyLimit %d\nSecRequestBodyLimitAction %s\nSecResponseBodyLimit %d\nSecResponseBodyLimitAction %s\n",
 		2+rng.Intn(4), la[rng.Intn(2)], 2+rng.Intn(4), la[rng.Intn(2)])
-	text := extra + eng.Render(s)
+	// every other scenario also gets one or two rules that always fire and steer the evaluation, in a random phase,
+	// in front of the generated rules, and two logging-phase rules behind a marker at the end
+	flow := ""
+	if rng.Intn(2) == 0 {
+		always := []string{"deny,skip:2", "drop,skipAfter:ZEND", "pass,skip:1", "allow:phase", "allow:request", "allow", "pass,ctl:ruleEngine=DetectionOnly",
+			"pass,ctl:ruleEngine=On", "pass,ctl:ruleRemoveById=10-30", "redirect:http://x/,status:302", "pass,skipAfter:ZEND", "deny,skipAfter:NOWHERE", "pass,ctl:ruleRemoveById=9098"}
+		for k := 0; k < 1+rng.Intn(2); k++ {
+			flow += fmt.Sprintf("SecAction \"id:%d,phase:%d,nolog,%s\"\n", 9001+k, 1+rng.Intn(5), always[rng.Intn(len(always))])
+		}
+	}
+	text := extra + flow + eng.Render(s) + "SecMarker ZEND\nSecAction \"id:9098,phase:5,pass,nolog\"\nSecAction \"id:9099,phase:5,pass,nolog\"\n"
 	w, err, p := eng.Compile(text)
 	if err != nil || p != "" {
 		return tr, false
